@@ -311,19 +311,28 @@ def parse_proxy_headers(
         environ["SERVER_PORT"] = str(forwarded_port)
 
     if client_addr:
+        port = None
         if ":" in client_addr and client_addr[-1] != "]":
-            addr, port = client_addr.rsplit(":", 1)
-            environ["REMOTE_ADDR"] = strip_brackets(addr.strip())
+            client_addr, port = client_addr.rsplit(":", 1)
+        addr = strip_brackets(client_addr.strip())
+
+        if not addr:
+            raise MalformedProxyHeader(
+                "Forwarded For=" if forwarded else "X-Forwarded-For",
+                "empty address",
+                client_addr,
+            )
+
+        environ["REMOTE_ADDR"] = addr
+        if port is not None:
             environ["REMOTE_PORT"] = port.strip()
-        else:
-            environ["REMOTE_ADDR"] = strip_brackets(client_addr.strip())
         environ["REMOTE_HOST"] = environ["REMOTE_ADDR"]
 
     return untrusted_headers
 
 
 def strip_brackets(addr):
-    if addr[0] == "[" and addr[-1] == "]":
+    if addr[:1] == "[" and addr[-1:] == "]":
         return addr[1:-1]
     return addr
 
